@@ -79,7 +79,7 @@ def run_part(tier: str, rep: common.Reporter) -> Dict[str, Any]:
                                                {"own": False, "entries": [{"k": "time", "t": 1, "a": 9}]}]})
                for L in ((2, 3) if q else (2, 3, 4)) for combo in itertools.product(range(len(KINDS)), repeat=L)]
     mc_cfgs += [lbl_driver.normalize({"tasks": [{"own": True, "entries": [dict(KINDS[k], a=i + 1, i=pat(i)) for i, k in enumerate(combo)]}]})
-                for L in ((2, 3) if q else (2, 3, 4)) for combo in itertools.product(range(len(KINDS)), repeat=L)
+                for L in (2, 3) for combo in itertools.product(range(len(KINDS)), repeat=L)      # ids: lists <= 3 in both tiers (cost)
                 for pat in (lambda i: 1, lambda i: 1 + i % 2, lambda i: i % 2)]
     text = "SPECIFICATION Spec\nCONSTANTS\n  Cfgs <- JsonCfgs\n  MaxOps = %d\n  AllowedViol = {}\nINVARIANT NoViolation\nCHECK_DEADLOCK FALSE\n" % (4 if q else 5)
     r = mbt.mc("MC_Lbl", mc_cfgs, text, timeout=1500 if q else 6000)
